@@ -121,6 +121,7 @@ static int nfunc_seen;
 void emitfunc(struct func *f, bool global) {
 	nfunc_seen++;
 	if (strcmp(f->name, TV_NAME) != 0) return;             /* helper definitions in the same skeleton */
+	real_emitfunc(f, global);          /* the real emitter first: it completes the function (undefined labels, implicit return); its output goes to empty stubs */
 	tv_run(f);
 }
 int main(void) {
